@@ -120,9 +120,29 @@ func (a *a4) inScope(f *ssa.Function) bool {
 }
 
 // known external functions that write through an argument (index of the written argument)
+// (generic functions are looked up by their name without the instantiation suffix)
 var a4ExternalWriters = map[string]int{
-	"sort.Strings": 0, "sort.Slice": 0, "sort.SliceStable": 0, "sort.Sort": 0, "sort.Ints": 0,
-	"slices.Sort[[]string string]": 0, "encoding/json.Unmarshal": 1,
+	"sort.Strings": 0, "sort.Slice": 0, "sort.SliceStable": 0, "sort.Sort": 0, "sort.Stable": 0, "sort.Ints": 0, "sort.Float64s": 0,
+	"slices.Sort": 0, "slices.SortFunc": 0, "slices.SortStableFunc": 0, "slices.Reverse": 0,
+	"slices.Delete": 0, "slices.DeleteFunc": 0, "slices.Compact": 0, "slices.CompactFunc": 0, "slices.Insert": 0, "slices.Replace": 0,
+	"maps.DeleteFunc": 0, "maps.Copy": 0,
+	"encoding/json.Unmarshal": 1,
+}
+
+// external functions whose result aliases their first argument (in-place editing helpers of package slices)
+var a4ExternalAliasing = map[string]bool{
+	"slices.Delete": true, "slices.DeleteFunc": true, "slices.Compact": true, "slices.CompactFunc": true, "slices.Insert": true,
+	"slices.Replace": true, "slices.Grow": true, "slices.Clip": true,
+}
+
+// external functions that return a fresh shallow copy of their first argument
+var a4ExternalCloning = map[string]bool{"slices.Clone": true, "maps.Clone": true, "bytes.Clone": true, "strings.Clone": true}
+
+func genericBase(name string) string {
+	if i := strings.IndexByte(name, '['); i > 0 {
+		return name[:i]
+	}
+	return name
 }
 
 func (a *a4) analyse(f *ssa.Function, args []pc, chain []string) *a4Summary {
@@ -603,12 +623,38 @@ func (a *a4) call(f *ssa.Function, c ssa.CallInstruction, get func(ssa.Value) pc
 			writes[c] = a4Write{f, c, "delete(" + org(args[0]) + ", …)", chain}
 		}
 		return
+	case "builtin:clear":
+		if get(args[0]).P {
+			writes[c] = a4Write{f, c, "clear(" + org(args[0]) + ")", chain}
+		}
+		return
 	}
 	if strings.HasPrefix(name, "builtin:") {
 		return
 	}
-	if idx, ok := a4ExternalWriters[name]; ok && idx < len(args) && get(args[idx]).P {
-		writes[c] = a4Write{f, c, name + "(" + org(args[idx]) + ")", chain}
+	base := genericBase(name)
+	if idx, ok := a4ExternalWriters[base]; ok && idx < len(args) && get(args[idx]).P {
+		writes[c] = a4Write{f, c, base + "(" + org(args[idx]) + ")", chain}
+	}
+	if base == "maps.Copy" && len(args) == 2 {
+		// dst content now holds what src held
+		if g := get(args[1]); g.P || g.C {
+			if root := resolve(args[0], c); root != nil {
+				set(root, get(root).or(pc{false, true}))
+			}
+			set(args[0], get(args[0]).or(pc{false, true}))
+		}
+	}
+	if v != nil && len(args) > 0 {
+		if a4ExternalAliasing[base] {
+			set(v, get(args[0]))
+			return
+		}
+		if a4ExternalCloning[base] {
+			g := get(args[0])
+			set(v, pc{false, g.C})
+			return
+		}
 	}
 	// resolve callees
 	var callees []*ssa.Function
@@ -754,10 +800,6 @@ func ruleC10_2() Rule {
 // Metablock that wraps it. The two write sites below are reported for that reason only; each was confirmed by reading
 // the code. Any other write in the same functions is still reported.
 var a4ReviewedWrites = []struct{ fn, pathPrefix, chainHas, reason string }{
-	{"in_toto.verifyMatchRule", "p1{", "in_toto.VerifyArtifacts", "path normalisation of the source artifacts of links loaded (LoadLinksForLayout) or recorded (RunInspections -> RecordArtifacts) by this very verification; the maps are fresh, only the enclosing Link aggregate is tainted (inspection links carry layout.Inspect[i].Run as Command)"},
-	{"in_toto.verifyMatchRule", "delete(p1,", "in_toto.VerifyArtifacts", "as above (delete of the unclean key)"},
-	{"in_toto.verifyMatchRule", "phi(", "in_toto.VerifyArtifacts", "as above (destination artifacts)"},
-	{"in_toto.verifyMatchRule", "delete(phi(", "in_toto.VerifyArtifacts", "as above (destination artifacts)"},
 	{"(*in_toto.Metablock).Sign", "append(p0.Signatures", "in_toto.InTotoRun", "the Metablock is the fresh wrapper &Metablock{Signed: link, Signatures: []Signature{}} built by InTotoRun; only its Signed link aggregate is tainted (Command = cmdArgs)"},
 	{"(*in_toto.Metablock).Sign", "append(p0.Signatures", "in_toto.InTotoRecordStop", "fresh wrapper built by InTotoRecordStop"},
 	{"(*in_toto.Metablock).Sign", "append(p0.Signatures", "in_toto.InTotoRecordStart", "fresh wrapper built by InTotoRecordStart"},
@@ -767,6 +809,10 @@ var a4ReviewedWrites = []struct{ fn, pathPrefix, chainHas, reason string }{
 func a4FilterReviewed(ws []a4Write) (kept []a4Write, reviewed []string) {
 	for _, w := range ws {
 		ok := false
+		if why := cleanIdiomWrite(w); why != "" {
+			ok = true
+			reviewed = append(reviewed, fname(w.fn)+": "+w.path+" ("+why+")")
+		}
 		for _, r := range a4ReviewedWrites {
 			if fname(w.fn) != r.fn || !strings.HasPrefix(w.path, r.pathPrefix) {
 				continue
@@ -788,4 +834,52 @@ func a4FilterReviewed(ws []a4Write) (kept []a4Write, reviewed []string) {
 		}
 	}
 	return
+}
+
+
+// cleanIdiomWrite: the write is the in-place path normalisation of an artifact map, wherever it is written: inside a
+// range over the map, m[path.Clean(k)] = m[k] under the guard path.Clean(k) != k, or the delete(m, k) next to it; and it
+// happens below VerifyArtifacts, i.e. on the artifact maps of links that this verification loaded or recorded itself
+// (the maps are fresh; A4 taints the enclosing Link aggregate as a whole because an inspection link carries the
+// layout's Run list as Command).
+func cleanIdiomWrite(w a4Write) string {
+	if curProg == nil || w.instr == nil || w.fn == nil {
+		return ""
+	}
+	below := fname(w.fn) == "in_toto.VerifyArtifacts"
+	for _, c := range w.chain {
+		if c == "in_toto.VerifyArtifacts" {
+			below = true
+		}
+	}
+	if !below {
+		return ""
+	}
+	for _, l := range mapLoops(w.fn) {
+		if !l.body[w.instr.Block()] {
+			continue
+		}
+		var theMu *ssa.MapUpdate
+		for b := range l.body {
+			for _, in := range b.Instrs {
+				if mu, ok := in.(*ssa.MapUpdate); ok && resolve(mu.Map, mu) == resolve(l.rng.X, l.rng) && curProg.cleanGuard(l, mu) {
+					theMu = mu
+				}
+			}
+		}
+		if theMu == nil {
+			continue
+		}
+		switch x := w.instr.(type) {
+		case *ssa.MapUpdate:
+			if x == theMu {
+				return "reviewed idiom: path clean-up of the artifact maps of links loaded or recorded by this verification"
+			}
+		case *ssa.Call:
+			if calleeName(x) == "builtin:delete" && resolve(x.Call.Args[0], x) == resolve(l.rng.X, l.rng) && resolve(x.Call.Args[1], x) == l.key && x.Block() == theMu.Block() {
+				return "reviewed idiom: delete of the unclean key next to the path clean-up"
+			}
+		}
+	}
+	return ""
 }
